@@ -6,9 +6,9 @@ use hv_common::{Args, Recorder, Rng};
 use lattices::collections::{ArraySet, OptionMap, OptionSet, SingletonMap, SingletonSet, VecMap};
 use lattices::map_union::MapUnion;
 use lattices::set_union::SetUnion;
-use lattices::{Conflict, IsBot, LatticeFrom, Max, Merge, Min, Pair, VecUnion, WithBot, WithTop};
+use lattices::{Conflict, DomPair, IsBot, LatticeFrom, Max, Merge, Min, Pair, VecUnion, WithBot, WithTop};
 
-pub const RULE: &str = "merge / lattice_from / is_bot on nested lattice types (Max, Min, (), Conflict, SetUnion, MapUnion, WithBot, WithTop, Pair, VecUnion; nesting depth <= 3) for receiver families HashSet+HashMap, BTreeSet+BTreeMap, Vec+HashMap and other-representations Hash*, BTree*, Vec+VecMap, Vec+HashMap, singleton, option, array; single merges and merge histories on one slot; non-trivial = the merge changes the receiver's abstract value and the other value is not bottom; distinct = distinct op-line sequences";
+pub const RULE: &str = "merge / lattice_from / is_bot on nested lattice types (Max, Min, (), Conflict, SetUnion, MapUnion, WithBot, WithTop, Pair, VecUnion, DomPair<Max,_>; nesting depth <= 3) for receiver families HashSet+HashMap, BTreeSet+BTreeMap, Vec+HashMap and other-representations Hash*, BTree*, Vec+VecMap, Vec+HashMap, singleton, option, array; single merges and merge histories on one slot; non-trivial = the merge changes the receiver's abstract value and the other value is not bottom; distinct = distinct op-line sequences";
 
 // ------------------------------------------------------------------------------------ dynamic values
 
@@ -22,6 +22,7 @@ pub enum DVal {
     Opt(Option<Box<DVal>>),
     Pair(Box<DVal>, Box<DVal>),
     Seq(Vec<DVal>),
+    Dom(u64, Box<DVal>),
 }
 
 #[derive(Clone, Debug, PartialEq)]
@@ -36,6 +37,8 @@ pub enum Shape {
     WithTop(Box<Shape>),
     Pair(Box<Shape>, Box<Shape>),
     Vec(Box<Shape>),
+    /// `DomPair<Max<u64>, _>`
+    Dom(Box<Shape>),
 }
 
 fn parse_desc(cs: &[u8]) -> Option<(Shape, &[u8])> {
@@ -62,6 +65,10 @@ fn parse_desc(cs: &[u8]) -> Option<(Shape, &[u8])> {
         b'l' => {
             let (s, r) = parse_desc(r)?;
             (Shape::Vec(Box::new(s)), r)
+        }
+        b'd' => {
+            let (s, r) = parse_desc(r)?;
+            (Shape::Dom(Box::new(s)), r)
         }
         b'p' => {
             let (s1, r) = parse_desc(r)?;
@@ -166,6 +173,20 @@ fn parse_val<'a>(sh: &Shape, cs: &'a [u8]) -> Option<(DVal, &'a [u8])> {
             }
             parse_seq(&cs[1..], b',', b']', &|cs| parse_val(s, cs)).map(|(v, r)| (DVal::Seq(v), r))
         }
+        Shape::Dom(s) => {
+            if cs.first() != Some(&b'<') {
+                return None;
+            }
+            let (k, r) = parse_nat(&cs[1..])?;
+            if r.first() != Some(&b'|') {
+                return None;
+            }
+            let (v, r) = parse_val(s, &r[1..])?;
+            if r.first() != Some(&b'>') {
+                return None;
+            }
+            Some((DVal::Dom(k, Box::new(v)), &r[1..]))
+        }
     }
 }
 pub fn val_of(sh: &Shape, s: &str) -> Option<DVal> {
@@ -196,6 +217,7 @@ pub fn show(sh: &Shape, v: &DVal) -> String {
         (Shape::WithBot(s) | Shape::WithTop(s), DVal::Opt(Some(x))) => format!("?{}", show(s, x)),
         (Shape::Pair(s, t), DVal::Pair(a, b)) => format!("({};{})", show(s, a), show(t, b)),
         (Shape::Vec(s), DVal::Seq(xs)) => format!("[{}]", xs.iter().map(|x| show(s, x)).collect::<Vec<_>>().join(",")),
+        (Shape::Dom(s), DVal::Dom(k, v)) => format!("<{k}|{}>", show(s, v)),
         _ => "<shape-mismatch>".into(),
     }
 }
@@ -211,6 +233,7 @@ pub fn canon(sh: &Shape, v: &DVal) -> bool {
         (Shape::WithBot(s) | Shape::WithTop(s), DVal::Opt(Some(x))) => canon(s, x),
         (Shape::Pair(s, t), DVal::Pair(a, b)) => canon(s, a) && canon(t, b),
         (Shape::Vec(s), DVal::Seq(xs)) => xs.iter().all(|x| canon(s, x)),
+        (Shape::Dom(s), DVal::Dom(_, v)) => canon(s, v),
         _ => true,
     }
 }
@@ -221,6 +244,7 @@ fn wf(sh: &Shape, v: &DVal) -> bool {
         (Shape::WithBot(s) | Shape::WithTop(s), DVal::Opt(Some(x))) => wf(s, x),
         (Shape::Pair(s, t), DVal::Pair(a, b)) => wf(s, a) && wf(t, b),
         (Shape::Vec(s), DVal::Seq(xs)) => xs.iter().all(|x| wf(s, x)),
+        (Shape::Dom(s), DVal::Dom(_, v)) => wf(s, v),
         _ => true,
     }
 }
@@ -239,6 +263,7 @@ enum NVal {
     Opt(Option<Box<NVal>>),
     Pair(Box<NVal>, Box<NVal>),
     Seq(Vec<NVal>),
+    Dom(u64, Box<NVal>),
 }
 fn spec_is_bot(sh: &Shape, v: &DVal) -> bool {
     match (sh, v) {
@@ -252,6 +277,7 @@ fn spec_is_bot(sh: &Shape, v: &DVal) -> bool {
         (Shape::WithTop(s), DVal::Opt(o)) => o.as_ref().is_some_and(|x| spec_is_bot(s, x)),
         (Shape::Pair(s, t), DVal::Pair(a, b)) => spec_is_bot(s, a) && spec_is_bot(t, b),
         (Shape::Vec(_), DVal::Seq(xs)) => xs.is_empty(),
+        (Shape::Dom(s), DVal::Dom(k, v)) => *k == 0 && spec_is_bot(s, v),
         _ => false,
     }
 }
@@ -276,6 +302,7 @@ fn norm(sh: &Shape, v: &DVal) -> NVal {
         (Shape::WithTop(s), DVal::Opt(o)) => NVal::Opt(o.as_ref().map(|x| Box::new(norm(s, x)))),
         (Shape::Pair(s, t), DVal::Pair(a, b)) => NVal::Pair(Box::new(norm(s, a)), Box::new(norm(t, b))),
         (Shape::Vec(s), DVal::Seq(xs)) => NVal::Seq(xs.iter().map(|x| norm(s, x)).collect()),
+        (Shape::Dom(s), DVal::Dom(k, v)) => NVal::Dom(*k, Box::new(norm(s, v))),
         _ => NVal::Unit,
     }
 }
@@ -319,6 +346,11 @@ fn njoin(sh: &Shape, a: &NVal, b: &NVal) -> NVal {
                     .collect(),
             )
         }
+        (Shape::Dom(s), NVal::Dom(k1, v1), NVal::Dom(k2, v2)) => match k1.cmp(k2) {
+            std::cmp::Ordering::Less => b.clone(),
+            std::cmp::Ordering::Greater => a.clone(),
+            std::cmp::Ordering::Equal => NVal::Dom(*k1, Box::new(njoin(s, v1, v2))),
+        },
         _ => NVal::Unit,
     }
 }
@@ -438,6 +470,15 @@ impl<A: Conv, B: Conv> Conv for Pair<A, B> {
         DVal::Pair(Box::new(a.to()), Box::new(b.to()))
     }
 }
+impl<V: Conv> Conv for DomPair<Max<u64>, V> {
+    fn of(v: &DVal) -> Option<Self> {
+        if let DVal::Dom(k, x) = v { Some(DomPair::new(Max::new(*k), V::of(x)?)) } else { None }
+    }
+    fn to(self) -> DVal {
+        let (k, x) = self.into_reveal();
+        DVal::Dom(k.into_reveal(), Box::new(x.to()))
+    }
+}
 impl<V: Conv> Conv for VecUnion<V> {
     fn of(v: &DVal) -> Option<Self> {
         if let DVal::Seq(xs) = v { xs.iter().map(V::of).collect::<Option<Vec<V>>>().map(VecUnion::new) } else { None }
@@ -517,6 +558,11 @@ macro_rules! family {
             pub type LBX = VecUnion<BX>;
             pub type PBXTS = Pair<BX, TS>;
             pub type LPSX = VecUnion<PSX>;
+            pub type DX = DomPair<X, X>;
+            pub type DS = DomPair<X, S>;
+            pub type DBX = DomPair<X, BX>;
+            pub type MDS = MapUnion<$Map<u64, DS>>;
+            pub type DLX = DomPair<X, LX>;
             // a map nested where `IsBot` of the inner map is required
             pub type MMS = MapUnion<$Map<u64, MS>>;
             pub type BMS = WithBot<MS>;
@@ -532,12 +578,13 @@ family!(fw, Vec, HashMap);
 family!(fv, Vec, VecMap);
 
 /// (alias, descriptor with hash-like sets)
-const FLAT: [(&str, &str); 27] = [
+const FLAT: [(&str, &str); 32] = [
     ("X", "x"), ("N", "n"), ("U", "u"), ("C", "c"), ("S", "s"),
     ("MX", "mx"), ("MN", "mn"), ("MS", "ms"), ("MC", "mc"), ("MU", "mu"),
     ("BX", "bx"), ("BS", "bs"), ("TX", "tx"), ("TS", "ts"), ("PSX", "psx"), ("PXN", "pxn"),
     ("LX", "lx"), ("LS", "ls"), ("MBX", "mbx"), ("MTS", "mts"), ("MLX", "mlx"), ("MPSBX", "mpsbx"),
     ("TBX", "tbx"), ("BTX", "btx"), ("LBX", "lbx"), ("PBXTS", "pbxts"), ("LPSX", "lpsx"),
+    ("DX", "dx"), ("DS", "ds"), ("DBX", "dbx"), ("MDS", "mds"), ("DLX", "dlx"),
 ];
 const NESTED_MAP: [(&str, &str); 5] = [("MMS", "mms"), ("BMS", "bms"), ("MMX", "mmx"), ("PMXS", "pmxs"), ("LMX", "lmx")];
 
@@ -549,7 +596,7 @@ macro_rules! reg {
 }
 macro_rules! reg_all {
     ($reg:ident, $r:ident, $rn:literal, $o:ident, $on:literal) => {
-        reg!($reg, $r, $rn, $o, $on, [X, N, U, C, S, MX, MN, MS, MC, MU, BX, BS, TX, TS, PSX, PXN, LX, LS, MBX, MTS, MLX, MPSBX, TBX, BTX, LBX, PBXTS, LPSX]);
+        reg!($reg, $r, $rn, $o, $on, [X, N, U, C, S, MX, MN, MS, MC, MU, BX, BS, TX, TS, PSX, PXN, LX, LS, MBX, MTS, MLX, MPSBX, TBX, BTX, LBX, PBXTS, LPSX, DX, DS, DBX, MDS, DLX]);
     };
 }
 macro_rules! reg_nested {
@@ -718,6 +765,7 @@ fn top_name(sh: &Shape) -> &'static str {
         Shape::WithTop(_) => "WithTop",
         Shape::Pair(_, _) => "Pair",
         Shape::Vec(_) => "VecUnion",
+        Shape::Dom(_) => "DomPair",
     }
 }
 
@@ -862,6 +910,7 @@ impl Gen {
                 let n = rng.below(self.maxlen + 1);
                 DVal::Seq((0..n).map(|_| self.val(rng, s, recv, dup_keys)).collect())
             }
+            Shape::Dom(s) => DVal::Dom(if rng.chance(1, 6) { 0 } else { rng.below(3) }, Box::new(self.val(rng, s, recv, dup_keys))),
         }
     }
 }
@@ -962,6 +1011,7 @@ fn show_raw(sh: &Shape, v: &DVal) -> String {
         (Shape::WithBot(s) | Shape::WithTop(s), DVal::Opt(Some(x))) => format!("?{}", show_raw(s, x)),
         (Shape::Pair(s, t), DVal::Pair(a, b)) => format!("({};{})", show_raw(s, a), show_raw(t, b)),
         (Shape::Vec(s), DVal::Seq(xs)) => format!("[{}]", xs.iter().map(|x| show_raw(s, x)).collect::<Vec<_>>().join(",")),
+        (Shape::Dom(s), DVal::Dom(k, v)) => format!("<{k}|{}>", show_raw(s, v)),
         _ => show(sh, v),
     }
 }
@@ -1001,6 +1051,15 @@ fn all_vals(sh: &Shape, recv: bool) -> Vec<DVal> {
             for a in all_vals(s, recv) {
                 for b in all_vals(t, recv) {
                     out.push(DVal::Pair(Box::new(a.clone()), Box::new(b)));
+                }
+            }
+            out
+        }
+        Shape::Dom(s) => {
+            let mut out = vec![];
+            for k in 0..3 {
+                for v in all_vals(s, recv) {
+                    out.push(DVal::Dom(k, Box::new(v)));
                 }
             }
             out
